@@ -37,6 +37,7 @@ def run(ctx, tier):
     ctx.rule("M1", "component slots agree inside each statement / call")
     ctx.rule("M2", "fast_test and fast_match handle the four component types identically")
     ctx.rule("M3", "test and match agree on input plumbing")
+    ctx.rule("M4", "compile classifies a component into a shortcut only under the guards that make the shortcut exact")
     cfgs = C.configs_for(tier, thorough=["release", "devchecks", "amalgamated"])
     fxs = C.load_configs(ctx, cfgs)
     for name in cfgs:
@@ -111,6 +112,40 @@ def check(ctx, fx):
                                 assigned.add(r["name"])
     ctx.check("M2", "compile classifies into handled modes only", assigned <= set(kinds) and assigned == set(kinds),
               ", ".join(sorted(assigned)), "compile assigns %s, the enum has %s" % (sorted(assigned), kinds))
+
+    # ---- M4: a component is classified into a shortcut only when the shortcut is equivalent ---------
+    # (frozen semantic facts: what makes each shortcut compute what the regular expression would)
+    need = {
+        "EMPTY": [("size==0:", "part_list")],
+        "EXACT_MATCH": [("eq:", "type==ada::url_pattern_part_type::FIXED_TEXT"),
+                        ("eq:", "modifier==ada::url_pattern_part_modifier::none"), ("dis:", "ignore_case")],
+        "FULL_WILDCARD": [("eq:", "type==ada::url_pattern_part_type::FULL_WILDCARD"),
+                          ("eq:", "modifier==ada::url_pattern_part_modifier::none"),
+                          ("size==0:", "prefix"), ("size==0:", "suffix")],
+    }
+    from lib.mustflow import MustFlow
+    n4 = 0
+    for f in comp:
+        mf = MustFlow(f)
+        for b in f["blocks"]:
+            for i, s in enumerate(b["stmts"]):
+                for nd in X.stmt_nodes(s, local=True):
+                    if nd.get("k") == "assign" and X.show(X.strip(nd["lhs"])) == "component_type":
+                        r = X.strip(nd["rhs"])
+                        if r.get("kind") != "enumerator" or r["name"] not in need:
+                            continue
+                        n4 += 1
+                        facts = mf.facts_before(b["id"], i) or frozenset()
+                        missing = []
+                        for (pre, sub) in need[r["name"]]:
+                            if not any(x.startswith(pre) and sub in x for x in facts):
+                                missing.append(pre + "…" + sub)
+                        ctx.check("M4", "compile: %s only when the shortcut is exact" % r["name"], not missing,
+                                  "guards: " + ", ".join(p_ + s_ for p_, s_ in need[r["name"]]),
+                                  "a component is classified %s without %s being established on the path: the shortcut then "
+                                  "answers differently from the regular expression it replaces (e.g. `{*.js}` treated as `*`)"
+                                  % (r["name"], ", ".join(missing)), where=s["loc"].replace("/repo/", ""))
+    ctx.floor("M4", n4, 3, "shortcut classifications in compile")
 
     # ---- M3 -----------------------------------------------------------------------
     t = fx.fn1("%s::test" % PAT)
